@@ -558,7 +558,7 @@ fn corrupt(rng: &mut Rng, d: &mut gen::DictSrc) -> String {
             bytes = s.into_bytes();
             label = "undefined-name";
         }
-        16 | 17 if which == 0 || which == 3 => {
+        13 | 16 | 17 if which == 0 || which == 3 => {
             // a connection id exactly at a boundary of the connector (numLeft, numRight, or one below the larger)
             let text = String::from_utf8_lossy(&bytes).to_string();
             let mut lines: Vec<String> = text.lines().map(|l| l.to_string()).collect();
@@ -567,7 +567,9 @@ fn corrupt(rng: &mut Rng, d: &mut gen::DictSrc) -> String {
                 let mut cols: Vec<String> = lines[li].split(',').map(|c| c.to_string()).collect();
                 if cols.len() >= 4 {
                     let side = 1 + rng.below(2); // 1 = left id column, 2 = right id column
-                    let v = *rng.pick(&[nl, nr, nl.max(nr) - 1, nl.min(nr), 65535, 65534]);
+                    // mostly the first id that is out of range on that very side
+                    let own = if side == 1 { nl } else { nr };
+                    let v = *rng.pick(&[own, own, own, nl, nr, nl.max(nr) - 1, nl.min(nr), 65535, 65534]);
                     cols[side] = v.to_string();
                     lines[li] = cols.join(",");
                 }
